@@ -15,6 +15,7 @@ class C08Filter:
        Every processed item is logged to an O_APPEND side file (also items with zero outputs / raising items)."""
     def __init__(self, mode, kmap, raising, side, jitter_seed, jitter_ms, exc_type="ValueError"):
         self.exc_type = exc_type
+        self.none_uid = None
         self.mode, self.kmap, self.raising, self.side = mode, dict(kmap), set(raising), side
         self.jitter_seed, self.jitter_ms = jitter_seed, jitter_ms
 
@@ -24,7 +25,7 @@ class C08Filter:
             if r < .5: time.sleep(r * 2 * self.jitter_ms / 1000.0)
 
     def filter(self, item):
-        uid = item[0]
+        uid = self.none_uid if item is None else item[0]      # the item None stands for the uid it replaced
         pid = os.getpid()
         _append(self.side, f"P {uid} {pid}")
         self._sleep(uid, "pre")
